@@ -161,6 +161,10 @@ def run(tier, seed):
     col.merge(stepcheck.explore(li, MONS, 0, 0, seed=seed))
     # a run that follows an earlier run on the same objects, with a worker's absence list edited in place in between
     col.merge(stepcheck.explore(stepcheck.edited_items(names=("worker-absence-inplace", "worker-absence-move")), MONS, 0, 0, seed=seed))
+    col.merge(stepcheck.explore(stepcheck.resumed_edit_items(("worker-absence-append-3",), ks=(1, 2, 3)), MONS, 0, 0, seed=seed))
+    # backward runs (inner run observed, logs left unreversed) with project-wide absence steps and both values of the automatic-task flag
+    bi = [(sp, dict(o, backward=True, rev=False, absence=list(ab))) for sp, o in mi[:: (5 if tier == "quick" else 2)] for ab in ((1,), (0, 2), (2, 3))]
+    col.merge(stepcheck.explore(bi, MONS, 0, 0, seed=seed))
     # project-wide lists in any order and with repeated entries
     seqs = F.absence_sequences(5, 3)
     lit2 = [(sp, {"rule": "TSLACK", "auto_abs": aa, "max_time": 24, "absence": list(s)}) for sp in F.absence_probe_models() for aa in (False, True)
